@@ -23,6 +23,7 @@ B(v) == [k |-> "bool", v |-> v]
 I(v) == [k |-> "int", v |-> v]
 F(v) == [k |-> "float", v |-> v]
 S(v) == [k |-> "str", v |-> v]
+Big(v) == [k |-> "big", v |-> v]      \* an integer outside 64 bit, as its decimal text (TLC's integers are 32 bit)
 A(v) == [k |-> "arr", v |-> v]
 O(v) == [k |-> "obj", v |-> v]
 \* ---- object helpers (sorted association sequences) ---------------------------------------------------------------
@@ -105,6 +106,7 @@ ViewEq(j, x) ==
     [] j.k = "int" -> x.k = "int" /\ x.v = j.v
     [] j.k = "float" -> x.k = "float" /\ x.v = j.v
     [] j.k = "str" -> x.k = "str" /\ x.v = j.v
+    [] j.k = "big" -> x.k = "big" /\ x.v = j.v
     [] j.k = "arr" -> IF j.v = <<>> THEN x.k = "nil" ELSE x.k = "list" /\ Len(x.v) = Len(j.v) /\ \A i \in 1..Len(j.v) : ViewEq(j.v[i], x.v[i])
     [] j.k = "obj" -> IF j.v = <<>> THEN x.k = "nil"
                       ELSE x.k = "alist" /\ Len(x.v) = Len(j.v)
@@ -127,8 +129,8 @@ Conflate(j) == CASE j.k = "bool" -> IF j.v THEN j ELSE Null
 (* Generator: documents and histories                                      *)
 (***************************************************************************)
 \* floats: also one that needs all 17 significant digits, a huge and a tiny one
-Scalars == {Null, B(TRUE), I(0), I(-7), F("1.5"), F("0.30000000000000004"), S(""), S("x y")}
-           \cup (IF Level = 1 THEN {} ELSE {B(FALSE), I(2147483647), S("q\"\\"), F("-0.25"), F("1e+300"), F("5e-324"), F("123456789.12345679")})
+Scalars == {Null, B(TRUE), I(0), I(-7), F("1.5"), F("0.30000000000000004"), S(""), S("x y"), Big("9223372036854775808")}
+           \cup (IF Level = 1 THEN {} ELSE {B(FALSE), I(2147483647), S("q\"\\"), F("-0.25"), F("1e+300"), F("5e-324"), F("123456789.12345679"), Big("-123456789012345678901234567890")})
 Smalls == {A(<<I(1), S("s")>>), O(<<<<"a", I(1)>>>>), A(<<>>), O(<<>>)}
 Docs == Scalars \cup Smalls
         \cup {A(<<x, y>>) : x \in {I(1), Null, A(<<I(2), I(3)>>), O(<<<<"a", S("v")>>>>), F("0.30000000000000004")}, y \in {S("t"), O(<<<<"b", Null>>, <<"c d", I(4)>>>>), A(<<>>)}}
